@@ -111,6 +111,9 @@ def gen(rng: Rng, tier, i):
             # the SAME python object saved to both stores (save must not change its argument), and the
             # compression level given as a NumPy integer
             "reuse_object": x.chance(0.25), "level_as_numpy": x.chance(0.15),
+            # the live object is CHANGED IN PLACE between its two saves (a checkpoint loop): the second
+            # save has to store what the object holds then (round 15, S-C01o)
+            "mutate_between": x.fork("mut").chance(0.6),
             "other_process": rng.chance(0.08) and alias is None,
             # load in a FRESH interpreter with another string-hash salt (a real restart: nothing the
             # saving process computed - hash orders, caches, interned objects - survives)
@@ -188,6 +191,63 @@ def _build(plan):
     return o
 
 
+def _mutate(root):
+    """In-place change of every numeric array / tensor reachable from `root` (deterministic walk:
+    attribute and dict insertion order), done the way that is hardest to notice: tensors through
+    `.data` (the autograd version counter does not move), arrays through `+=` on the same buffer.
+    Applied identically to the live object and to the expectation rebuilt from the spec."""
+    import torch
+
+    seen = set()
+    n = [0]
+
+    def rec(v, depth=0):
+        if id(v) in seen or depth > 12:
+            return
+        if isinstance(v, torch.nn.Module):
+            seen.add(id(v))
+            for t in list(v.parameters()) + list(v.buffers()):
+                rec(t, depth + 1)
+            for a in list(vars(v).values()):
+                if not isinstance(a, (dict,)) or a is not getattr(v, "_parameters", None):
+                    pass
+            return
+        if isinstance(v, torch.Tensor):
+            seen.add(id(v))
+            if v.numel() and v.dtype != torch.bool and not v.is_sparse:
+                try:
+                    with torch.no_grad():
+                        v.data.add_(1)
+                    n[0] += 1
+                except Exception:
+                    pass
+            return
+        if isinstance(v, np.ndarray):
+            seen.add(id(v))
+            if v.size and v.dtype.kind in "iufc" and v.flags.writeable:
+                np.add(v, 1, out=v, casting="unsafe")
+                n[0] += 1
+            return
+        if isinstance(v, (list, tuple)):
+            seen.add(id(v))
+            for a in v:
+                rec(a, depth + 1)
+            return
+        if isinstance(v, dict):
+            seen.add(id(v))
+            for a in list(v.values()):
+                rec(a, depth + 1)
+            return
+        d = getattr(v, "__dict__", None)
+        if d is not None and type(v).__module__.startswith(("qsim_models", "quantem")):
+            seen.add(id(v))
+            for a in list(d.values()):
+                rec(a, depth + 1)
+
+    rec(root)
+    return n[0]
+
+
 def run(plan):
     res = new_result()
     spec = plan["graph"]
@@ -204,6 +264,7 @@ def run(plan):
         helper = _ForkedLoader(plan["env"])  # forked now: has never seen the object graph
     loaded = {}
     shared_obj = [None]
+    n_mut = [0]
     try:
         with serio.SerEnv(plan["env"], keep_log=False) as E:
             n_sig = 0
@@ -222,6 +283,10 @@ def run(plan):
                         shared_obj[0] = _build(plan)
                     else:
                         bump(res["probes"], "same_object_saved_twice")
+                        if plan.get("mutate_between"):
+                            if _mutate(shared_obj[0]):
+                                bump(res["probes"], "live_object_changed_in_place_between_saves")
+                            n_mut[0] += 1
                     obj = shared_obj[0]
                 else:
                     obj = _build(plan)
@@ -264,6 +329,8 @@ def run(plan):
                         f"load_raised:{type(exc).__name__}:{_exc_class(exc)}"))
                     continue
                 exp = _build(plan)
+                for _ in range(n_mut[0]):
+                    _mutate(exp)
                 d = graphs.equal(exp, got)
                 if d:
                     res["violations"].append(Violation(
@@ -292,7 +359,7 @@ def run(plan):
                         "second_generation_mismatch", f"{tag}: {[tuple(x) for x in d2[:4]]}",
                         "second_generation_mismatch:" + graphs.diff_sig(d2)))
                 del got2
-            if "zip" in loaded and "dir" in loaded:
+            if "zip" in loaded and "dir" in loaded and not n_mut[0]:
                 d3 = graphs.equal(loaded["zip"], loaded["dir"])
                 if d3:
                     res["violations"].append(Violation(
